@@ -19,7 +19,7 @@ checks = {
    note="Bounded by type nesting depth; lengths and names unconstrained. Trusted: MIR dump, mirsym + std models (validated natively on sampled pairs every run), the reference model vtref.py. Outside: put_symbol / use_function and the typer code that applies these relations to real expressions.",
    ref="DESIGN.md section 3, C07"),
  "C08": dict(cat="model_checking",
-   text="Rule-kernel clause: mutability::needs_outer_mutability is symbolically executed from MIR over a Reference whose step vector holds up to 4 (quick) / 7 (thorough) symbolic access steps with symbolic length; z3 decides that the base variable must be mutable exactly when the reference does not pass through a pointer (no autoderef step and no deslice-by-pointer), which together with the mutability bit is the E530 verdict table. Verdict clauses, each one step from an arbitrary map of 3 (4) symbolic entries: Analyzer::use_variable is E530 iff the variable is mutated and declared immutable (undeclared: silent poison; poisoned base: passes); the Assignment arm of Statement::analyze on a symbolic reference of up to 3 (5) steps is rejected with E530 iff its base is declared immutable and the reference does not pass through a pointer; the Deref arm rejects taking the address of such a variable and never a read; LengthOfArray never needs mutability; constants and parameters are recorded immutable, members mutable, local variables mutable unless their type is an array view, slice pointer or view; no other map entry changes.",
+   text="Rule-kernel clause: mutability::needs_outer_mutability is symbolically executed from MIR over a Reference whose step vector holds up to 4 (quick) / 7 (thorough) symbolic access steps with symbolic length; z3 decides that the base variable must be mutable exactly when the reference does not pass through a pointer (no autoderef step and no deslice-by-pointer), which together with the mutability bit is the E530 verdict table. Verdict clauses, each one step from an arbitrary map of 3 (4) symbolic entries: Analyzer::use_variable is E530 iff the variable is mutated and declared immutable (undeclared: silent poison; poisoned base: passes); the Assignment arm of Statement::analyze on a symbolic reference of up to 3 (5) steps is rejected with E530 iff its base is declared immutable and the reference does not pass through a pointer; the Deref arm rejects taking the address of such a variable and never a read; LengthOfArray never needs mutability; constants and parameters are recorded immutable, members mutable, local variables mutable unless their type is an array view, slice pointer or view; no other map entry changes; every arm of Expression::analyze and Statement::analyze hands each direct child to the analysis (traversal clause, 24 arms, opaque children).",
    note="Bounded by the number of steps; loop unrolled with an unwinding obligation. Outside: how the arms compose over whole function bodies (each arm is decided on its own with the analysis of its sub-expressions as havoc, justified by a call-graph check that expression analysis cannot declare variables), E531-E533, E513 (function_calls.rs), and the run-time non-interference consequence. Trusted: MIR dump, mirsym + Vec/slice-iterator models, validated natively (guarded hook) on all sequences of <= 2 steps and sampled longer ones.",
    ref="DESIGN.md section 3, C08"),
  "C12": dict(cat="model_checking",
@@ -66,7 +66,7 @@ m = {
  "setup_cmd": "./setup.sh",
  "hooks": {"guard": "cargo features verif / verif_small_buffers",
            "enable": "--features verif_small_buffers (Kani harness crates); the MIR-based checks use the unhooked crate",
-           "baseline_off_cmd": "python3 /verif/lib/baseline.py", "source_commits": ["ecc0424", "2ff211b", "4dd7126", "cb3acb4", "32a0e2f", "e7be6da", "35f1c84", "b36789d", "a86b5a8", "f5fa45e", "89c3cb8", "78f82b1"], "add_only": True},
+           "baseline_off_cmd": "python3 /verif/lib/baseline.py", "source_commits": ["ecc0424", "2ff211b", "4dd7126", "cb3acb4", "32a0e2f", "e7be6da", "35f1c84", "b36789d", "a86b5a8", "f5fa45e", "89c3cb8", "78f82b1", "96e3858"], "add_only": True},
  "engines": [
   {"name": "E-MIR", "path": "mir/", "serves_properties": sorted(checks),
    "kind_free_text": "bounded symbolic execution of rustc MIR (nightly -Zunpretty=mir of /repo's working tree) into z3 bit-vector terms; verdicts cross-checked on z3 4.8.12 and cvc5; translation validated natively through replay/"},
